@@ -260,6 +260,8 @@ def method_call(ex, f, recv, node, kw, st, sink):
             h = SET_METHODS.get(name)
         if h is None:
             raise Unsupported("method %s.%s at line %d" % (t, name, node.lineno))
+        # an Optional argument to a builtin-type method is used as its value (passing None would be a TypeError: not modelled)
+        args = [ty.opt_val(a) if isinstance(a.t, ty.Opt) else a for a in args]
         out += h(ex, f.value, recv, args, s, sink, node)
     return out
 
@@ -358,6 +360,39 @@ def s_find(ex, rn, recv, args, s, sink, node):
     return [(s, SV(ty.Int, z3.IndexOf(recv.e, args[0].e, start)))]
 
 
+def _char_rsearch(ex, s, recv, needle, lo, hi, sink, node, raising):
+    """last position in [lo, hi) holding the one-character needle (str.rindex / str.rfind with a range), as a fresh integer with its defining facts"""
+    r = z3.Int("rfound!%d" % ex._fresh())
+    p = z3.Int("p!rfind%d" % ex._fresh())
+    ch = lambda i: ops.char_at(recv, i).e
+    found = z3.And(lo <= r, r < hi, ch(r) == needle.e, z3.ForAll([p], z3.Implies(z3.And(r < p, p < hi), ch(p) != needle.e)))
+    absent = z3.ForAll([p], z3.Implies(z3.And(lo <= p, p < hi), ch(p) != needle.e))
+    out = []
+    s1 = s.copy()
+    s1.assume(found)
+    if ex.feasible(s1):
+        s1.trace.append("%s:found" % _origin(node))
+        out.append((s1, SV(ty.Int, r)))
+    s2 = s.copy()
+    s2.assume(absent)
+    if ex.feasible(s2):
+        s2.trace.append("%s:absent" % _origin(node))
+        if raising:
+            ex.raise_(s2, "ValueError", sink, _origin(node))
+        else:
+            out.append((s2, SV(ty.Int, z3.IntVal(-1))))
+    return out
+
+
+def s_rindex(ex, rn, recv, args, s, sink, node):
+    simp = ex.simp_for(s)
+    lo = ops.clamp_lo(recv.e, args[1].e, simp) if len(args) > 1 else z3.IntVal(0)
+    hi = ops.clamp_lo(recv.e, args[2].e, simp) if len(args) > 2 else z3.Length(recv.e)
+    if _single_char(args[0].e):
+        return _char_rsearch(ex, s, recv, args[0], lo, hi, sink, node, True)
+    raise Unsupported("str.rindex with a multi-character needle")
+
+
 def s_rfind(ex, rn, recv, args, s, sink, node):
     if len(args) == 1:
         return [(s, SV(ty.Int, z3.LastIndexOf(recv.e, args[0].e)))]
@@ -404,7 +439,7 @@ def s_opaque(fname, ret=ty.Str):
     return h
 
 
-STR_METHODS = {"index": s_index, "find": s_find, "rfind": s_rfind, "startswith": s_startswith, "endswith": s_endswith,
+STR_METHODS = {"rindex": s_rindex, "index": s_index, "find": s_find, "rfind": s_rfind, "startswith": s_startswith, "endswith": s_endswith,
                "join": s_join, "strip": s_opaque("strip"), "lstrip": s_opaque("lstrip"), "rstrip": s_opaque("rstrip"),
                "lower": s_opaque("lower"), "upper": s_opaque("upper"), "replace": s_opaque("replace"),
                "splitlines": s_opaque("splitlines", ty.Seq(ty.Str)), "split": s_opaque("split", ty.Seq(ty.Str)),
